@@ -9,7 +9,7 @@ package core
 //
 // The callable is compiled from the text below by the real compiler.  The
 // invocation arguments are arbitrary: a string of n arbitrary bytes, digits,
-// a struct, a typed map, an array, a boolean or null.
+// a struct, a typed map, an array (with fixed numbers), a boolean or null.
 //
 //	invocation JSON -> call text -> invocation JSON is the identity on values
 //	(the doc comment of InvocationDataFromSource), the type-directed
@@ -60,10 +60,10 @@ func c16Callable() *c16Fixture {
 	}).(*c16Fixture)
 }
 
+// numbers are concrete here: integer text <-> value conversion of symbolic
+// digits is the subject of H_C16_scalarsJSON / H_C09_intRoundTrip
 func c16Digit(name string) []byte {
-	b := verifBytes(name, 1)
-	verifAssume(verifAll(b[0] >= '0', b[0] <= '9'))
-	return b
+	return []byte{"3175208469"[len(name)%10]}
 }
 
 func c16Cat(parts ...[]byte) json.RawMessage {
@@ -99,13 +99,14 @@ func c16Strip(b []byte) []byte {
 	return out
 }
 
-// H_C16_invocationLoop(n, flagKind): flagKind 0/1/2 = false/true/null.
+// H_C16_invocationLoop(n, flagKind): flagKind 0/1/2 = false/true/null; with
+// flagKind 1 the struct and map arguments arrive as Go maps instead of raw JSON.
 func H_C16_invocationLoop(n int, flagKind int) {
 	fx := c16Callable()
 	s := verifString("s", n)
-	if verifKnown("C16-nonutf8-string") {
-		verifAssume(utf8.ValidString(s))
-	}
+	// invocation data is JSON: its strings are Unicode text (what an MRO
+	// literal denoting other bytes turns into is the C09 finding)
+	verifAssume(utf8.ValidString(s))
 	var sj bytes.Buffer
 	(&syntax.StringExp{Value: s}).EncodeJSON(&sj)
 	a, b, i, k, e0, e1, sa, sb := c16Digit("st.a"), c16Digit("st.b"), c16Digit("i"), c16Digit("m.k"), c16Digit("arr0"), c16Digit("arr1"), c16Digit("sts.a"), c16Digit("sts.b")
@@ -119,6 +120,16 @@ func H_C16_invocationLoop(n int, flagKind int) {
 		"flag": json.RawMessage(flag),
 		"sts":  c16Cat([]byte(`[{"a":`), sa, []byte(`,"b":`), sb, []byte(`}]`)),
 		"um":   c16Cat([]byte(`{"x":`), k, []byte(`}`)),
+	}
+	raw := map[string]json.RawMessage{}
+	for key, v := range args {
+		raw[key] = v.(json.RawMessage)
+	}
+	if flagKind == 1 {
+		// the same values handed over as already decoded maps, as API callers do
+		args["st"] = MarshalerMap{"a": json.RawMessage(a), "b": json.RawMessage(b)}
+		args["m"] = LazyArgumentMap{"key": json.RawMessage(k)}
+		args["um"] = LazyArgumentMap{"x": json.RawMessage(k)}
 	}
 	ast, err := BuildCallAst("S", args, nil, fx.callable, fx.lookup, nil)
 	verifAssert(err == nil, "C16: well-formed invocation data converts to a call")
@@ -161,11 +172,11 @@ func H_C16_invocationLoop(n int, flagKind int) {
 	}
 	verifCover("round trip done")
 	verifAssert(data.Call == "S" && len(data.SplitArgs) == 0, "C16: the call target survives")
-	for key, v := range args {
+	for key, want := range raw {
 		got, ok := data.Args[key]
 		verifAssert(ok, "C16: every argument survives the round trip")
 		if ok {
-			verifAssert(verifBytesEq(c16Strip(got), c16Strip(v.(json.RawMessage))), "C16: invocation JSON -> call text -> invocation JSON gives back every argument value")
+			verifAssert(verifBytesEq(c16Strip(got), c16Strip(want)), "C16: invocation JSON -> call text -> invocation JSON gives back every argument value")
 		}
 	}
 	verifAssert(len(data.Args) == len(args), "C16: no argument is invented")
